@@ -331,6 +331,10 @@ func propC19(c *Check) {
 	c.Rule("R3", "block context (errors halt the chain): the explicit error constructions reachable from Begin/EndBlock are exactly the reviewed ones, each excluded by an invariant that C13/C16 rules establish or intended (engine faults); a new one is reported")
 	c.Rule("R4", "nothing survives a failed transaction outside the rolled-back stores: no package-level or keeper-reachable mutable state")
 	c.Rule("R5", "error discipline: no error result is discarded anywhere in hand-written production code (bare call, `_ =`, `v, _ :=`, defer/go), so a failed step always fails the transaction (rolled back by the SDK) or the block; exemptions are listed by callee with a reason")
+	c.Rule("R6", "no certain crash, no giving up on success: no pointer is dereferenced (field, element, load, method with pointer receiver) and no error is passed to panic on a path where a dominating branch established that it is nil")
+	c.certainCrash("R6")
+	c.Rule("R7", "no division by a parameter that validation lets be zero: every field of a module's Params record that consensus code divides by (or takes a remainder by) is established positive on every success path of that record's Validate")
+	c.divisorParamsValidated("R7")
 
 	// R1 notes
 	for _, h := range p.Contexts().Tx {
@@ -554,6 +558,7 @@ func propC19(c *Check) {
 	// R5
 	c.errorDiscipline("R5", 500)
 	c.writeFailureMustFail("R5", 0)
+	c.readFailureForgivenOnlyIfNotFound("R5")
 }
 
 
@@ -674,4 +679,211 @@ func mayBeNilConst(v ssa.Value, depth int) bool {
 		}
 	}
 	return false
+}
+
+
+// certainCrash: a use of v that faults (or a panic(v) that throws away a success) in a block every way into which has
+// passed the outcome `v == nil` of a branch on that very value.
+func (c *Check) certainCrash(rule string) {
+	p := c.p
+	n, bad := 0, 0
+	for _, f := range p.ProdFuncs {
+		if p.isGenerated(f) {
+			continue
+		}
+		k := FuncKey(rootOf(f))
+		if !(strings.HasPrefix(k, "x/") || strings.HasPrefix(k, "app.")) || strings.Contains(k, "/client/") || strings.Contains(k, "testutil") {
+			continue
+		}
+		c.touch(f)
+		for _, b := range f.Blocks {
+			for _, in := range b.Instrs {
+				var ptr ssa.Value
+				what := ""
+				switch x := in.(type) {
+				case *ssa.UnOp:
+					if x.Op == token.MUL {
+						ptr, what = x.X, "load through"
+					}
+				case *ssa.FieldAddr:
+					ptr, what = x.X, "field of"
+				case *ssa.IndexAddr:
+					if _, isPtr := x.X.Type().Underlying().(*types.Pointer); isPtr {
+						ptr, what = x.X, "element of"
+					}
+				case *ssa.Store:
+					ptr, what = x.Addr, "store through"
+				case *ssa.Panic:
+					{
+						arg := x.X
+						if mi, ok := arg.(*ssa.MakeInterface); ok {
+							arg = mi.X
+						}
+						if ci, ok := arg.(*ssa.ChangeInterface); ok {
+							arg = ci.X
+						}
+						if types.Identical(arg.Type(), errorType) {
+							n++
+							if knownNilAt(arg, b) || (stableValue(arg, 0) && p.R(f).domFacts(b)[EQ(p.R(f).E(arg), "nil")]) {
+								bad++
+								c.Violated(rule, "panic-on-success @ "+FuncKey(f), p.InstrPos(in), "panic("+p.R(f).E(arg)+") is reached only after the branch outcome that the error is nil: the function gives up exactly when the step succeeded")
+							}
+						}
+					}
+					continue
+				}
+				if ptr == nil {
+					continue
+				}
+				switch ptr.(type) {
+				case *ssa.Alloc, *ssa.Global, *ssa.FieldAddr, *ssa.IndexAddr:
+					continue // addresses, never nil
+				}
+				n++
+				if knownNilAt(ptr, b) || (stableValue(ptr, 0) && p.R(f).domFacts(b)[EQ(p.R(f).E(ptr), "nil")]) || reloadedNil(p.R(f), ptr, in) {
+					bad++
+					c.Violated(rule, "nil-dereference @ "+FuncKey(f), p.InstrPos(in), what+" "+p.R(f).E(ptr)+" on a path where a dominating branch established that it is nil")
+				}
+			}
+		}
+	}
+	if bad == 0 {
+		c.Held(rule, "no-certain-crash", "", fmt.Sprintf("%d dereferences and panic(err) sites in hand-written production code, none dominated by the outcome `== nil` of a test of the same value", n))
+	}
+	c.Floor(rule, "dereference / panic(err) sites examined", n, 200)
+}
+
+
+// reloadedNil: ptr is a field read again right after the same field was tested against nil: the block of `use` is
+// entered only from the block that ends in that test, on its `== nil` outcome, and nothing between the test and the
+// use (no store, no call) can have changed the field.
+func reloadedNil(r *Renderer, ptr ssa.Value, use ssa.Instruction) bool {
+	ld, ok := ptr.(*ssa.UnOp)
+	if !ok || ld.Op != token.MUL {
+		return false
+	}
+	b := use.Block()
+	if len(b.Preds) != 1 {
+		return false
+	}
+	id := b.Preds[0]
+	iff, ok := id.Instrs[len(id.Instrs)-1].(*ssa.If)
+	if !ok || len(id.Succs) != 2 || id.Succs[0] == id.Succs[1] {
+		return false
+	}
+	bo, ok := iff.Cond.(*ssa.BinOp)
+	if !ok || (bo.Op != token.EQL && bo.Op != token.NEQ) {
+		return false
+	}
+	var tested ssa.Value
+	switch {
+	case isNilConst(bo.Y):
+		tested = bo.X
+	case isNilConst(bo.X):
+		tested = bo.Y
+	default:
+		return false
+	}
+	tl, ok := tested.(*ssa.UnOp)
+	if !ok || tl.Op != token.MUL || tl.Block() != id || r.E(tl.X) != r.E(ld.X) {
+		return false
+	}
+	nilSucc := 0
+	if bo.Op == token.NEQ {
+		nilSucc = 1
+	}
+	if id.Succs[nilSucc] != b {
+		return false
+	}
+	effect := func(in ssa.Instruction) bool {
+		switch in.(type) {
+		case *ssa.Store, ssa.CallInstruction, *ssa.MapUpdate, *ssa.Send:
+			return true
+		}
+		return false
+	}
+	after := false
+	for _, in := range id.Instrs {
+		if in == ssa.Instruction(tl) {
+			after = true
+			continue
+		}
+		if after && effect(in) {
+			return false
+		}
+	}
+	for _, in := range b.Instrs {
+		if in == use || in == ssa.Instruction(ld) {
+			break
+		}
+		if effect(in) {
+			return false
+		}
+	}
+	return true
+}
+
+
+// divisorParamsValidated: integer divisions in production code whose divisor is a field of a repository `Params` record;
+// the record's Validate must refuse a zero.
+func (c *Check) divisorParamsValidated(rule string) {
+	p := c.p
+	type key struct {
+		t *types.Named
+		f string
+	}
+	seen := map[key]ssa.Instruction{}
+	for _, f := range p.ProdFuncs {
+		if p.isGenerated(f) {
+			continue
+		}
+		for _, b := range f.Blocks {
+			for _, in := range b.Instrs {
+				bo, ok := in.(*ssa.BinOp)
+				if !ok || (bo.Op != token.QUO && bo.Op != token.REM) {
+					continue
+				}
+				if bt, ok := bo.Y.Type().Underlying().(*types.Basic); !ok || bt.Info()&types.IsInteger == 0 {
+					continue
+				}
+				y := bo.Y
+				if cv, ok := y.(*ssa.Convert); ok {
+					y = cv.X
+				}
+				ld, ok := y.(*ssa.UnOp)
+				if !ok || ld.Op != token.MUL {
+					continue
+				}
+				fa, ok := ld.X.(*ssa.FieldAddr)
+				if !ok {
+					continue
+				}
+				nt := namedOf(fa.X.Type())
+				if nt == nil || nt.Obj().Name() != "Params" || nt.Obj().Pkg() == nil || !strings.HasPrefix(nt.Obj().Pkg().Path(), modPath) {
+					continue
+				}
+				k := key{nt, fieldName(fa.X.Type(), fa.Field)}
+				if _, dup := seen[k]; !dup {
+					seen[k] = in
+					c.touch(f)
+				}
+			}
+		}
+	}
+	var keys []key
+	for k := range seen {
+		keys = append(keys, k)
+	}
+	sort.Slice(keys, func(i, j int) bool { return keys[i].t.Obj().Pkg().Path()+keys[i].f < keys[j].t.Obj().Pkg().Path()+keys[j].f })
+	for _, k := range keys {
+		vkey := relPkg(k.t.Obj().Pkg().Path()) + ".Params.Validate"
+		vf := p.Fn(vkey)
+		cons := "divisor " + relPkg(k.t.Obj().Pkg().Path()) + ".Params." + k.f
+		if vf == nil {
+			c.Violated(rule, cons, p.InstrPos(seen[k]), "divided by at "+p.InstrPos(seen[k])+" but "+vkey+" does not exist reason=not-established")
+			continue
+		}
+		c.RequireFact(vf, rule, cons+" validated positive", patPositive("$0."+k.f), nil, "")
+	}
+	c.Floor(rule, "parameters used as divisors", len(keys), 1)
 }
